@@ -154,6 +154,24 @@ def obs(g, with_lines=True):
             o[n] = sorted(str(k) for k in getattr(g, n))
         except Exception as e:
             o[n] = "unobservable:" + type(e).__name__
+    try:
+        o["n_input_header_lines"] = g.n_input_header_lines
+    except Exception as e:
+        o["n_input_header_lines"] = "unobservable:" + type(e).__name__
+    # the values of the header tags as the API returns them (a tag defined on several H lines is
+    # a gfapy.FieldArray, a tag defined once is the value itself)
+    hv = {}
+    try:
+        h = g.header
+        for t in h.tagnames:
+            try:
+                v = h.get(t)
+                hv[t] = "%s:%s" % (type(v).__name__, h.field_to_s(t, True))
+            except Exception as e:
+                hv[t] = "unobservable:" + type(e).__name__
+    except Exception as e:
+        hv = "unobservable:" + type(e).__name__
+    o["header_values"] = hv
     if with_lines:
         per = {}
         for l in lines:
